@@ -73,6 +73,7 @@ func (e *Exec) load(st *State, addr *smt.Term, t types.Type) *smt.Term {
 	// every address stored in the initial heap at a location that existed at entry was allocated
 	// before entry (locations of objects allocated later hold whatever their allocator put there)
 	e.assumeNotFreshIf(st, smt.Not(isFresh(addr, e.alloc0)), v0, t, e.alloc0)
+	e.assumeAllocated(st, v, t)
 	return v
 }
 
@@ -252,6 +253,13 @@ func (e *Exec) havocAll(st *State, why string, pos token.Pos) {
 		delete(st.Heaps, k)
 	}
 	st.Epoch = e.newEpoch()
+	// ghost counters are observable effects too: an unknown callee may have bumped any of them
+	for k := range e.ghostNames {
+		st.Ghost["G|"+k] = e.fresh("g."+k, BV64)
+		if e.disc != nil {
+			e.disc.ghost["G|"+k] = true
+		}
+	}
 	_ = why
 }
 
